@@ -14,6 +14,7 @@ class SymbolDB(MutableMapping[str, IReflection]):
 		self.__paths: dict[str, tuple[str, str]] = {}
 		self.__items: dict[str, IReflection] = {}
 		self.__completed: list[str] = []
+		self.__ordering: list[str] = []
 
 	def __getitem__(self, key: str) -> IReflection:
 		"""指定のキーのシンボルを取得
@@ -210,5 +211,16 @@ class SymbolDB(MutableMapping[str, IReflection]):
 		for attr in symbol.attrs:
 			self._order_keys_recursive(for_module_path, attr, orders)
 
-		if not for_module_path or for_module_path == symbol.types.module_path and symbol.types.fullyname not in orders:
-			orders.append(symbol.types.fullyname)
+		type_key = symbol.types.fullyname
+		if not for_module_path or for_module_path == symbol.types.module_path and type_key not in orders:
+			# 型の定義シンボル自身の依存(テンプレート型等)を先に登録 ※前方参照(`'Box[int]'`)では定義シンボルより先に利用側が現れる
+			type_symbol = self.__items.get(type_key)
+			if type_symbol is not None and type_symbol is not symbol and type_key not in self.__ordering:
+				self.__ordering.append(type_key)
+				try:
+					self._order_keys_recursive(for_module_path, type_symbol, orders)
+				finally:
+					self.__ordering.remove(type_key)
+
+			if not for_module_path or type_key not in orders:
+				orders.append(type_key)
